@@ -186,6 +186,7 @@ def load_tcpcl(label='A'):
     saved = {k: v for (k, v) in sys.modules.items() if k == 'tcpcl' or k.startswith('tcpcl.')}
     for key in saved:
         del sys.modules[key]
+    fresh = {}
     try:
         ns = Namespace(label)
         for name in ('formats', 'contact', 'messages', 'extend', 'config', 'session', 'agent'):
